@@ -429,7 +429,7 @@ def run_harness(ck, args, tag):
 def strip(c):
     """what goes into a replay file: the request, the script, the observation"""
     d = {k: c[k] for k in ("class", "method", "path", "params", "script") if k in c}
-    for k in ("accept", "body", "body_hex", "ctype", "model", "wait_ms", "abort_after", "tcp", "ws", "boot", "cold", "hang_up", "then"):
+    for k in ("accept", "body", "body_hex", "ctype", "model", "wait_ms", "abort_after", "tcp", "ws", "boot", "cold", "hang_up", "then", "max_conns"):
         if k in c and c[k] not in (None, "", False, {}) :
             d[k] = c[k]
     d["id"] = c["id"]
@@ -493,7 +493,7 @@ def test_oracle(c):
 
 
 GENERATED_THEOREMS = ("reader_unrecovered_goroutines_accounted", "handler_loops_receive_until_close", "locks_released_on_every_path",
-                      "sending_goroutines_close_on_every_path", "channel_ops_accounted")
+                      "sending_goroutines_close_on_every_path", "channel_ops_accounted", "no_request_asks_for_a_connection_while_holding_one")
 
 
 def props_split(ck):
@@ -503,14 +503,16 @@ def props_split(ck):
     src = open(os.path.join(vcheck.COQ, "props", "C12.v")).read()
     ck.obligations = [o for o in ck.obligations if not o[0].startswith("theorem ")]
     ok_deps, _ = ck.coq_make(["proofs/ReadPathProofs.vo", "gen/GenGoroutinesReader.vo"])
-    txt = ("From Coq Require Import List String.\nFrom Qryn Require Import model.ReaderGoroutines model.ReaderFlow gen.GenGoroutinesReader.\n"
+    txt = ("From Coq Require Import List String.\nFrom Qryn Require Import model.ReaderGoroutines model.ReaderFlow model.ReadConn gen.GenGoroutinesReader.\n"
            "Eval vm_compute in (unaccounted reader_goroutines, stale reader_goroutines, map (recovers_at reader_goroutines) must_recover).\n"
            "Eval vm_compute in (unaccounted_loops reader_loops).\n"
            "Eval vm_compute in (unaccounted_locks reader_locks).\n"
            "Eval vm_compute in (failing_flows reader_lock_flows).\n"
            "Eval vm_compute in (stale_reviews reader_lock_flows, Nat.eqb (total_acq reader_lock_flows) (List.length reader_locks)).\n"
            "Eval vm_compute in (failing_flows reader_close_flows).\n"
-           "Eval vm_compute in (unaccounted_chanops reader_chanops).\n")
+           "Eval vm_compute in (unaccounted_chanops reader_chanops).\n"
+           "Eval vm_compute in (failing_cflows reader_conn_flows).\n"
+           "Eval vm_compute in (unaccounted_qsites reader_query_sites, Nat.eqb (total_cacq reader_conn_flows) (bound_sites reader_query_sites), unaccounted_lends reader_untracked_lends).\n")
     rc, out = ck.coq_eval("C12_inventory", txt)
     flat = " ".join(out.split())
     parts = re.findall(r"= (.*?) : (?:list|\()", " " + flat)
@@ -525,6 +527,9 @@ def props_split(ck):
                   "goroutine bodies with a path on which a channel they send on is not closed exactly once: " + (parts[5][:900] if len(parts) > 5 else flat[-600:]))
     ck.obligation("theorem channel_ops_accounted", rc == 0 and len(parts) > 6 and parts[6].strip() == "nil",
                   "goroutine bodies whose channel operations differ from the reviewed ones (or a select without Done/default, or sends without close): " + (parts[6][:900] if len(parts) > 6 else flat[-600:]))
+    ck.obligation("theorem no_request_asks_for_a_connection_while_holding_one", rc == 0 and len(parts) > 8 and parts[7].strip() == "nil" and parts[8].strip().startswith("(nil, true, nil"),
+                  "function bodies with a path on which a connection is asked for (a statement, or a call that may issue one) while a result set of the body is still open / lent to a goroutine (file, function, unit, variable): %s; (statement sites outside every flow, every bound site is an acquisition of a flow, lending calls whose channel is not tracked): %s" % (
+                      parts[7][:900] if len(parts) > 7 else flat[-600:], parts[8][:400] if len(parts) > 8 else "?"))
     rest = src
     for t in GENERATED_THEOREMS:
         rest = re.sub(r"Theorem %s\b.*?Print Assumptions %s\.\n" % (t, t), "", rest, flags=re.S)
@@ -576,6 +581,7 @@ def run(ck):
         "C12: the live-tail LTS abstracts one tick's pipeline to its result (answer / error message / return) -- that pipeline is theorem tail_tick_pipeline_terminates -- and assumes time does not pass while a channel operation is ready (Go's select picks among the ready cases)",
         "C12: a Scan error in TempoService.Tags / Values / Search returns without rows.Close(): the result set is released by database/sql (Rows.awaitDone) when net/http cancels the request context -- modelled as the drainer of that cell",
         "C12: StableSqlxDBWrapper: sync.RWMutex is modelled as a writer-preferring read/write lock (RLock waits while a writer is active or announced, Lock announces one writer at a time and waits for the readers; the reader hand-off inside Unlock is one of the model's schedules); that every unit of sqlxWrap.go performs well-bracketed sections (pl_ok) rests on locks_released_on_every_path over the generated flows plus the reading of QueryCtx (the closure returns before the write lock is asked for); the harness counts pool rebuilds in the GetDB callback it hands to the real wrapper and cancels the request context itself when a scripted statement stalls",
+        "C12: connection pool: database/sql is modelled as a counter of connections (a statement takes one and blocks while none is free; the result set gives it back at Close() or when Next() returns false; a goroutine reading a result set gives it back when the channel it feeds is closed); translate/goinv_reader/connflow.go decides by name which calls may issue a statement (least fixpoint over the call graph; QueryCtx / QueryContext / Queryx = a statement, ExecCtx / ExecContext / Exec / Conn / Begin = ask-and-give-back, Exec also being the PromQL engine calling back into the reader's Queryable) and which of them lend (may issue a statement and return a channel); method calls are resolved by the receiver's written type where the unit shows it, else by name and argument count; one flow per variable and body: a result set stored in a struct field, passed to a callee or returned is followed only as far as the reviewed list says; that the per-body discipline gives the per-request discipline kn_ok of the pool theorem is argued (a callee's connection is either given back before it returns or lent through the channel it returns), not proved; the harness sets the pool size with SetMaxOpenConns on the pool behind the real wrapper",
         "C12: goroutine census (runtime.Stack) and the child-process crash/hang detection of harness/cmd/readfuzz",
         "C12: go/ast translator translate/goinv_reader (recover status, operation census by name-based call following inside a package)",
     ]
@@ -859,6 +865,14 @@ def run(ck):
     ck.extra["input_distribution"] = hist
     ck.extra["observed_outcomes"] = outc
     ck.extra["modelled_requests"] = len(modelled) + len(fwd) + len(prom) + len(profc) + len(convc) + sum(len(c["model"]["events"]) for c in poolc)
+    ck.extra["connection_pool_size_of_the_request"] = {str(k or 64): sum(1 for c in cases if (c.get("max_conns") or 0) == k) for k in sorted({c.get("max_conns") or 0 for c in cases})}
+    heavy = [c for c in fwd if c["model"]["fep"] in ("tempo_traceql", "tempo_tags_v2", "tempo_values_v2") and c["obs"].get("stmts", 0) >= 2]
+    ck.extra["requests_with_two_or_more_statements_on_a_pool_of_one"] = sum(1 for c in cases if c.get("max_conns") == 1 and c["obs"].get("stmts", 0) >= 2)
+    ck.extra["complex_traceql_requests_on_a_pool_of_one"] = sum(1 for c in heavy if c.get("max_conns") == 1 and c["obs"].get("stmts", 0) >= 3)
+    mq = re.search(r"reader_may_query_count : nat := (\d+)", open(os.path.join(vcheck.COQ, "gen", "GenGoroutinesReader.v")).read())
+    ck.extra["connection_flows"] = {"functions_that_may_issue_a_statement": int(mq.group(1)) if mq else -1,
+                                    "flows": len(re.findall(r"cf_file :=", open(os.path.join(vcheck.COQ, "gen", "GenGoroutinesReader.v")).read())),
+                                    "statement_sites": len(re.findall(r"q_file :=", open(os.path.join(vcheck.COQ, "gen", "GenGoroutinesReader.v")).read()))}
     ck.extra["pool_histories"] = len(poolc)
     ck.extra["pool_history_lengths"] = {str(k): sum(1 for c in poolc if len(c["model"]["events"]) == k) for k in sorted({len(c["model"]["events"]) for c in poolc})}
     ck.extra["pool_events"] = {}
